@@ -356,6 +356,7 @@ def sig_key(sig):
 # one check
 # ----------------------------------------------------------------------------------------------
 PURITY_SHARE = float(os.environ.get("VERIF_PURITY_SHARE", "0.25"))
+PURITY_CLONE_SHARE = float(os.environ.get("VERIF_PURITY_CLONE_SHARE", "0.4"))   # of the perturbed cases
 
 
 def mark_perturbed(pl, pid, seed, gen):
@@ -367,14 +368,14 @@ def mark_perturbed(pl, pid, seed, gen):
     n = 0
     for c in gen:
         if isinstance(c, dict) and "_pre" not in c and r.random() < PURITY_SHARE:
-            c["_pre"] = 1
+            c["_pre"] = 2 if r.random() < PURITY_CLONE_SHARE else 1
             n += 1
     return n
 
 
 def safe_impl(pl, case):
     try:
-        with purity.perturbed(isinstance(case, dict) and bool(case.get("_pre"))):
+        with purity.perturbed(isinstance(case, dict) and case.get("_pre")):
             return pl.run_impl(case)
     except Exception as e:  # plugin run_impl is expected to catch pypika's own exceptions; this is the safety net
         return {"harness_exc": "%s: %s" % (type(e).__name__, e)}
